@@ -24,9 +24,16 @@ ObsCur(o) == IF o.tomb THEN [off |-> 0, ne |-> 0, nx |-> o.next, tomb |-> TRUE]
 SameCur(a, b) == IF a.tomb \/ b.tomb THEN a.tomb = b.tomb ELSE a = b
 
 \* "" (agrees), "-" (not predicted), or the first difference
-SubDiff(st, sec, u) ==
-  IF u.res \in {"panic", "end"} \/ u.s = "next" THEN "-"
+SubDiff(st, sec, incl, u) ==
+  IF u.res = "panic" THEN "-"
   ELSE IF ~Structural(st.p) THEN "-"
+  ELSE IF u.s = "next" THEN
+       LET pr == SubNext(st, sec, incl) IN
+       IF pr.ok # (u.res = "ok") THEN "next: the transcription " \o (IF pr.ok THEN "yields a record" ELSE "ends the walk") \o ", the reader " \o (IF u.res = "ok" THEN "yields a record" ELSE "ends the walk")
+       ELSE IF ~pr.ok THEN ""
+       ELSE IF u.bytes # st.p THEN "next: bytes changed"
+       ELSE IF ~SameCur(pr.c, ObsCur(u.obs)) THEN "next: cursor differs from the transcription"
+       ELSE ""
   ELSE IF st.v.mc /\ ~PolicyOK(st.p) /\ u.s \in {"set_raw_name", "delete", "uncompress"} THEN "-"     \* the re-parse inside may refuse
   ELSE IF u.res = "na" THEN "-"
   ELSE LET pr == CASE u.s = "set_raw_name" -> SubSetRawName(st, sec, u.arg)
@@ -42,17 +49,18 @@ SubDiff(st, sec, u) ==
        ELSE IF ~SameCur(pr.c, ObsCur(u.obs)) THEN u.s \o ": cursor differs from the transcription"
        ELSE ""
 
-RECURSIVE Fold(_, _, _, _, _)
+RECURSIVE Fold(_, _, _, _, _, _)
 \* returns <<compared, first difference or "">>
-Fold(subs, k, st, sec, n) ==
+Fold(subs, k, st, sec, incl, n) ==
   IF k > Len(subs) THEN <<n, "">>
   ELSE LET u == subs[k] IN
-       IF u.res \in {"panic", "end"} THEN <<n, "">>
-       ELSE LET d == SubDiff(st, sec, u)
+       IF u.res = "panic" THEN <<n, "">>
+       ELSE IF u.res = "end" THEN (LET d == SubDiff(st, sec, incl, u) IN IF d \in {"", "-"} THEN <<IF d = "" THEN n + 1 ELSE n, "">> ELSE <<n, d>>)
+       ELSE LET d == SubDiff(st, sec, incl, u)
                 nxt == [p |-> u.bytes, v |-> ObsView(u.view), c |-> ObsCur(u.obs)] IN
             IF d \notin {"", "-"} THEN <<n, d>>
             ELSE IF Len(u.bytes) < 12 THEN <<n, "">>
-            ELSE Fold(subs, k + 1, nxt, sec, IF d = "" THEN n + 1 ELSE n)
+            ELSE Fold(subs, k + 1, nxt, sec, incl, IF d = "" THEN n + 1 ELSE n)
 
 StepDiff(e) ==
   IF e.k # "step" \/ e.res = "panic" \/ Len(e.pre) < 12 THEN <<0, "">>
@@ -61,7 +69,7 @@ StepDiff(e) ==
   IF o.op = "cursor" THEN
        IF ~e.has_first THEN <<0, "">>
        ELSE LET v0 == [ViewMC(e.pre, e.mc0) EXCEPT !.mc = e.mc0] IN
-            Fold(e.subs, 1, [p |-> e.pre, v |-> v0, c |-> ObsCur(e.first)], o.sec, 0)
+            Fold(e.subs, 1, [p |-> e.pre, v |-> v0, c |-> ObsCur(e.first)], o.sec, o.incl, 0)
   ELSE IF o.op \in {"insert", "insert_q"} THEN
        IF e.mc0 /\ ~PolicyOK(e.pre) THEN <<0, "">>
        ELSE IF o.op = "insert" /\ o.rec.bad THEN <<0, "">>
@@ -70,10 +78,22 @@ StepDiff(e) ==
             ELSE IF pr.p # e.post THEN <<0, o.op \o ": bytes differ from the transcription">>
             ELSE IF pr.ok /\ pr.v # [x \in DOMAIN pr.v |-> ObsView(e.view)[x]] THEN <<0, o.op \o ": bookkeeping differs from the transcription">>
             ELSE <<1, "">>
+  ELSE IF o.op = "recompute" THEN
+       IF e.mc0 /\ ~PolicyOK(e.pre) THEN <<0, "">>
+       ELSE LET q == IF e.mc0 THEN UncompressOut(e.pre) ELSE e.pre IN
+            IF e.res # "ok" THEN <<0, "recompute: the transcription succeeds, the object reports " \o e.res \o " " \o e.e>>
+            ELSE IF q # e.post THEN <<0, "recompute: bytes differ from the transcription">>
+            ELSE IF ViewMC(q, FALSE) # ObsView(e.view) THEN <<0, "recompute: bookkeeping differs from the transcription">>
+            ELSE <<1, "">>
   ELSE <<0, "">>
 
 Impl(e) == LET r == StepDiff(e) IN
   /\ Note("FACT", ToString(r[1]))
   /\ (IF r[2] = "" THEN TRUE ELSE Note("NOTE-IMPL", r[2]))
+\* decompression calls (C05 events): the output is the transcription's, byte for byte
+Unc(e) == IF ~WellFormed(e.pkt) \/ e.out.k # "ok" THEN Note("FACT", "0")
+          ELSE /\ Note("FACT", "1")
+               /\ (IF e.out.b = UncompressOut(e.pkt) THEN TRUE ELSE Note("NOTE-IMPL", "uncompress: bytes differ from the transcription"))
+NextUnc == Once /\ (IF Rec[l].k \in {"hang", "abort"} THEN Note("FACT", "0") ELSE Unc(Rec[l]))
 NextImpl == Once /\ (IF Rec[l].k \in {"hang", "abort"} THEN Note("FACT", "0") ELSE Impl(Rec[l]))
 ====
